@@ -26,7 +26,7 @@ RULE = ("2 of 3 runs: clock sweep - one bundled tariff x one of the 14 calendar-
 PROBES = ["lookups", "near_breakpoint", "season_edge_crossed", "weekday_class_midnight", "year_wrap_crossed", "leap_day",
           "world_runs", "get_prices_start0_later", "get_prices_explicit_start", "demand_charge_query", "energy_cost_checked",
           "winter_pge", "aware_two_zone_lookup", "explicit_tariff_cost_checked", "price_vector_scribbled", "vector_longer_than_a_year", "host_tz_non_utc", "breakpoint_minute_sweep", "concurrent_callers", "thread_switches",
-          "coarse_vector_daily_or_longer", "coarse_vector_monthly_or_longer", "direct_vector_scribbled_and_asked_again", "pandas_timestamp_lookup"]
+          "coarse_vector_daily_or_longer", "coarse_vector_monthly_or_longer", "direct_vector_scribbled_and_asked_again", "pandas_timestamp_lookup", "vector_ends_exactly_at_a_schedule_change_midnight"]
 FAULT_DIMENSION = "environment: host time zone (with DST nights), a working directory holding same-named tariff files with other rates; the simulated clock is swept across the calendar"
 REAL_VS_STUB = "real: TimeOfUseTariff + bundled JSON files, Interface.get_prices/get_demand_charge, analysis.energy_cost/demand_charge, Simulator; reference reads the JSON files itself"
 ASSUMPTIONS = ["prices compared exactly (they are copied from the file, never computed)", "costs within 1e-9 relative"]
@@ -95,7 +95,7 @@ def gen(rs, tier):
         # consecutive entries then differ in date, weekday class and often season at once
         period = rcv.choice([90, 240, 720, 1440, 1440, 2880, 10080, 40320, 41760, 43200, 43200, 44640, 44640, 131040, 525600, 527040])
         n = rcv.randint(3, 60 if period < 100000 else 12)
-    return {"seed": rs, "tariff": name, "year": year, "period": period, "n": n, "start_mode": r.choice(["random", "breakpoint", "season_edge", "midnight", "new_year", "leap_day"]),
+    return {"seed": rs, "tariff": name, "year": year, "period": period, "n": n, "start_mode": r.choice(["random", "breakpoint", "season_edge", "midnight", "new_year", "leap_day", "ends_at_midnight"]),
             "pick": r.randrange(10 ** 6), "second": r.choice([0, 0, 0, 30, 59])}
 
 
@@ -157,6 +157,20 @@ def check(sc):
         day = day - dt.timedelta(days=(day.weekday() - 4) % 7)   # a Friday
         start = day + dt.timedelta(hours=23, minutes=r.choice([0, 30, 45, 59]))
     n, period = sc["n"], sc["period"]
+    if mode == "ends_at_midnight":
+        # a vector whose LAST entry starts exactly at 00:00 of a day on which another schedule takes over (first day of a season,
+        # a Saturday, a Monday): k periods back from that midnight, k + 1 entries
+        pk_ = sc["pick"]
+        if edges and pk_ % 3 == 0:
+            mth, dd = edges[(pk_ // 3) % len(edges)]
+            mid_ = dt.datetime(y, mth, dd)
+        else:
+            d0_ = dt.datetime(y, 1, 1) + dt.timedelta(days=pk_ % 360)
+            mid_ = d0_ + dt.timedelta(days=((5 if pk_ % 2 else 0) - d0_.weekday()) % 7)       # next Saturday / Monday 00:00
+        k_ = 1 + (pk_ // 7) % 47
+        if period < 1440:
+            start, n = mid_ - k_ * dt.timedelta(minutes=period), k_ + 1
+            out.probe("vector_ends_exactly_at_a_schedule_change_midnight")
     try:
         got = T.get_tariffs(start, n, period)
     except Exception as x:
